@@ -1,4 +1,6 @@
 """C07 — ordered index reads return the correctly sorted, ranged page."""
+import re
+
 from . import common as K
 
 META = {
@@ -29,6 +31,7 @@ FINDINGS = {
     "C07-created-update-stale": "an update that moves CreatedAt (or first sets it) is not re-filed in the built creation-time index: the read is unsorted / misses the record",
     "C07-value-update-stale": "an update that changes the value of an indexed record leaves the built value index unsorted until the next insert",
     "C07-value-insert-wrong-comparator": "inserting into an already built non-int64 value index re-sorts with the int64 comparator, which fails: the new record stays appended at the end",
+    "C07-first-readers-race": "buildBeacon raises `initialized` before it fills and sorts the slice: the second of two concurrent first readers of an index is answered from the empty slice",
     "C07-value-index-mixed-types": "the single shared value index holds records of every content type: a value read returns records of other types / in the order of whichever type built it",
 }
 
@@ -150,6 +153,7 @@ class Hist:
         self.time_updates = {"created": set(), "updated": set(), "expire": set()}  # keys whose timestamp an update set
         self.value_updates = set()      # keys whose value an update set
         self.insert_after_value_read = False
+        self.race_line = False               # the line being judged is the second reader of a `race`
         self.value_read_over_mixed = False   # a value read happened while a record of another type was alive
 
     def on_set(self, sh, k, c, u, e):
@@ -196,6 +200,8 @@ def symptom(fid, q, keys, sh, hist):
         return idx == "created" and clean and bool(hist.time_updates["created"])
     if fid == "C07-value-update-stale":
         return idx in VALUE_TYPES and clean and bool(hist.value_updates)
+    if fid == "C07-first-readers-race":
+        return keys == [] and hist.race_line   # the second reader of a `race` line got nothing
     if fid == "C07-value-insert-wrong-comparator":
         return idx in VALUE_TYPES and idx != "i64" and clean and hist.insert_after_value_read
     return False
@@ -243,6 +249,51 @@ def judge(c):
         elif f[0] == "inc" and len(f) == 4 and int(f[2]) != 0:
             hist.on_set(sh, f[1], 0, 0, int(f[3]))
             sh.inc(f[1], int(f[2]), int(f[3]))
+        if f[0] == "race" and len(f) == 3:
+            # two first readers: both replies are full reads of the index, judged separately
+            q = (f[1], f[2] == "asc", 0, 0, None, None)
+            stats["queries"] += 1
+            stats["race_lines"] = stats.get("race_lines", 0) + 1
+            mi = re.match(r"^r2=(.*) r1=(.*)$", impl)
+            mm = re.match(r"^r2=(.*) r1=(.*)$", model)
+            if f[1] in VALUE_TYPES:
+                pending_vt = f[1]
+                pending_mixed = any(r["t"] != f[1] for r in sh.recs.values())
+            if mi is None or (model != "nd" and mm is None):
+                if impl != model:
+                    mism.append(i)
+                continue
+            if mi.group(1).startswith("err"):
+                if impl != model or sh.recs:
+                    mism.append(i)
+                continue
+            pages = [[k for k in mi.group(j).split(",") if k] for j in (1, 2)]
+            bads = [page_verdict(sh, q, pg) for pg in pages]
+            expl = []
+            for j, (pg, bad) in enumerate(zip(pages, bads)):
+                if bad:
+                    stats["impl_bad_pages"] += 1
+                    hist.race_line = j == 0
+                    ex = [x for x in flags if symptom(x, q, pg, sh, hist)]
+                    hist.race_line = False
+                    for x in ex:
+                        stats["bad_pages_by_finding"][x] = stats["bad_pages_by_finding"].get(x, 0) + 1
+                    if not ex:
+                        unexplained.append((i, "%s reader: %s" % (("second", "first")[j], bad)))
+                    expl += ex
+            if model == "nd":
+                stats["nd"] += 1
+                c.model[i] = impl
+            else:
+                mpages = [[k for k in mm.group(j).split(",") if k] for j in (1, 2)]
+                if [canon(sh, q, pg) for pg in pages] != [canon(sh, q, pg) for pg in mpages]:
+                    mism.append(i)
+                else:
+                    c.model[i] = impl
+                    if flags and not any(bads):
+                        unexplained.append((i, "model flags %s but the Spec oracle accepts both replies" % flags))
+            c.flags[i] = sorted(set(expl))
+            continue
         shift = f[0] == "shiftexp"
         pending_shift = shift
         if shift:
@@ -333,6 +384,13 @@ def spec_violated(rep):
             sh.delete(f[1])
         elif f[0] == "inc" and len(f) == 4:
             sh.inc(f[1], int(f[2]), int(f[3]))
+        elif f[0] == "race" and len(f) == 3 and i == last:
+            m = re.match(r"^r2=(.*) r1=(.*)$", impl)
+            if m and not m.group(1).startswith("err"):
+                for j, who in ((1, "second"), (2, "first")):
+                    bad = page_verdict(sh, (f[1], f[2] == "asc", 0, 0, None, None), [k for k in m.group(j).split(",") if k])
+                    if bad:
+                        return "`%s`: the %s of two concurrent first readers was answered `%s`: %s" % (op, who, m.group(j), bad)
         elif f[0] == "shiftexp":
             if i == last:
                 f = ["q", "expire", "asc", "0", "0", "-", "-", "u"]
